@@ -90,7 +90,7 @@ func runC09(c *Ctx) {
 	runC09UsageScaledByK(c)
 	runC09Leftovers(c)
 	runC09Satisfied(c)
-	borrow(c, "O10", "C07", "O7", "createQueueResourceAttrs", "each resource is divided by the queues' quota, limit and over-quota weight FOR THAT RESOURCE: a weight taken from another resource hands the surplus of one resource out in the proportions configured for another")
+	borrow(c, "O10", "C07", "O7", "entry is tied to", "each resource is divided by the queues' quota, limit and over-quota weight FOR THAT RESOURCE: a weight taken from another resource hands the surplus of one resource out in the proportions configured for another")
 	p, fx := c.P, c.Fx
 	e := newAbsExec(p)
 
